@@ -48,6 +48,7 @@ CONSTANTS MaxOut,            \* output chunks E's payload writes
           MaxCrashes,        \* S-daemon crashes
           ClientOps,         \* subset of {"cancel", "release", "frelease"} a client of S may issue (each once)
           RestartIfIdKnown,  \* seeded: Restart resumes when only the remote id is on record
+          IdStoredLate,      \* seeded (c04-remote-id-stored-late): RemoteUnitID is written only together with RemoteStarted
           StdoutFromZero,    \* mutation: results are requested from 0 after a reconnect
           ReleaseSkipsRemote \* mutation: a release issued while the link is down skips the remote call
 
@@ -173,8 +174,9 @@ SubmitSend ==
           /\ IF bg THEN UNCHANGED <<st, sz, bad>> ELSE SetSt("F", sz)      \* "Error starting worker"
   /\ UNCHANGED <<link, flaps, known, rid, started, lcan, lrel, lout, dup, up, crashes, mons, ops, reconn, retried, relGone>>
 
+\* rewrite #1, right after E's answer and BEFORE the stdin is shipped: from here on the local unit is bound to E's unit
 StoreId ==
-  /\ up /\ known /\ m = "store_id" /\ rid' = ecount /\ m' = "ship"
+  /\ up /\ known /\ m = "store_id" /\ rid' = (IF IdStoredLate THEN rid ELSE ecount) /\ m' = "ship"
   /\ UNCHANGED <<link, flaps, evars, known, started, lcan, lrel, st, sz, lout, dup, up, crashes, mop, bg, mons, ops, ans, ghost, bad>>
 
 ShipStdin ==
@@ -187,9 +189,10 @@ ShipStdin ==
 StoreStarted ==
   /\ up /\ known /\ m = "store_started"
   /\ started' = TRUE /\ ans' = [ans EXCEPT !["submit"] = IF bg THEN @ ELSE "ok"]
+  /\ rid' = (IF IdStoredLate THEN ecount ELSE rid)
   /\ m' = "idle" /\ mop' = "none" /\ bg' = FALSE
   /\ sm' = "connect" /\ smfr' = FALSE /\ om' = "check"
-  /\ UNCHANGED <<link, flaps, evars, known, rid, lcan, lrel, st, sz, lout, dup, up, crashes, omconn, ops, ghost, bad>>
+  /\ UNCHANGED <<link, flaps, evars, known, lcan, lrel, st, sz, lout, dup, up, crashes, omconn, ops, ghost, bad>>
 
 \* "work cancel <id>" / "work release <id>" at E
 CancelSend ==
@@ -304,6 +307,8 @@ NeverContradictsE == "Contradicts" \notin bad
 LocalOutputIsPrefix == ~dup /\ (known => lout <= eout)
 \* C04: the work is handed to E at most once per local unit; the binding never changes
 SubmittedOnce  == ecount <= 1
+\* C04: once E holds the complete stdin (its unit will run), S's record names that unit - whatever happens to S afterwards
+BoundOnceShipped == stdinDone => rid = ecount
 \* C04: after a restart a unit whose submission had not completed is Failed, not Pending
 NeverStartedIsFailed == (up /\ crashes > 0 /\ known /\ ~started /\ m = "idle") => st = "F"
 \* C04/C13: a cancel accepted at S is on disk (LocalCancelled) before anything else happens, so a restart re-issues it
